@@ -1,6 +1,8 @@
 package main
 
 import (
+	"sort"
+	"regexp/syntax"
 	"fmt"
 	"go/ast"
 	"go/token"
@@ -13,7 +15,7 @@ import (
 func init() {
 	register(&propDef{
 		ID:          "C06",
-		Explanation: "Totality and promptness of the parser over all byte strings are runtime facts and are R4 (termination of the top-level loop) every parser that has read one of the template keywords (templ / css / script) turns each later failed sub-parse into an error — it never declines with ok=false and a nil error, because the Go-code reader un-reads keyword lines containing an opening parenthesis and asks these parsers again; R5 every write into a strings.Builder whose String() becomes an Expression's text is text consumed from the input (result of Parse/Take), never a constant. R6 every `until` lookahead handed to the node-list parser (which rewinds after a match) is flat: it does not reach the node-list parser again, so no branch is parsed twice per nesting level. NOT decided. Decides the position-provenance clauses of the property, for all sites of package parser/v2 and goexpression: R1 every Expression/Range built by the parser goes through NewExpression/NewRange with positions that are parse.Position values obtained from the input being parsed (Position()/PositionAt(), or locals/parameters of that type); no Position, Range or Expression composite literal with position fields exists outside the three constructors, and the constructors copy index, line and column field by field; direct writes to Index/Line/Col exist only as a paired adjustment of Index and Col of the same position by the same constant; R2 every NameRange is NewRange(PositionAt(Index() − len(X.Name)), Position()) where X.Name is the field assigned by the name parser in the statement just before, for the same X; R3 (clamps) the bounds that come from go/parser positions are clamped before they are used to slice the source: in the extractor wrapper `end > len(content) → end = len(content)` and `start > end → start = end` follow the prefix subtraction and precede the return, and every slice bound taken from a go/ast End() position is tested (rejected or clamped) before the slice; parseGo slices and advances with the extractor's own start/end and converts them with PositionAt(from+start / from+end). NOT decided: absence of panics and hangs on arbitrary input, that the recorded text equals the source at the recorded range for every construct (value-level), error positions.",
+		Explanation: "Totality and promptness of the parser over all byte strings are runtime facts and are R4 (termination of the top-level loop) every parser that has read one of the template keywords (templ / css / script) turns each later failed sub-parse into an error — it never declines with ok=false and a nil error, because the Go-code reader un-reads keyword lines containing an opening parenthesis and asks these parsers again; R5 every write into a strings.Builder whose String() becomes an Expression's text is text consumed from the input (result of Parse/Take), never a constant. R6 every `until` lookahead handed to the node-list parser (which rewinds after a match) is flat: it does not reach the node-list parser again, so no branch is parsed twice per nesting level. NOT decided. R7 the text handed to the whole-file entry points (ParseString, parse.NewInput) in parser/v2, the LSP proxy and generatecmd is the text that was read: no strings/bytes/regexp/unicode call that produces text lies on its way (a stripped BOM or converted line ending shifts every recorded position against the file); the un-read test of R4 may be a regular expression, whose required prefixes are then enumerated from the pattern. Decides the position-provenance clauses of the property, for all sites of package parser/v2 and goexpression: R1 every Expression/Range built by the parser goes through NewExpression/NewRange with positions that are parse.Position values obtained from the input being parsed (Position()/PositionAt(), or locals/parameters of that type); no Position, Range or Expression composite literal with position fields exists outside the three constructors, and the constructors copy index, line and column field by field; direct writes to Index/Line/Col exist only as a paired adjustment of Index and Col of the same position by the same constant; R2 every NameRange is NewRange(PositionAt(Index() − len(X.Name)), Position()) where X.Name is the field assigned by the name parser in the statement just before, for the same X; R3 (clamps) the bounds that come from go/parser positions are clamped before they are used to slice the source: in the extractor wrapper `end > len(content) → end = len(content)` and `start > end → start = end` follow the prefix subtraction and precede the return, and every slice bound taken from a go/ast End() position is tested (rejected or clamped) before the slice; parseGo slices and advances with the extractor's own start/end and converts them with PositionAt(from+start / from+end). NOT decided: absence of panics and hangs on arbitrary input, that the recorded text equals the source at the recorded range for every construct (value-level), error positions.",
 		Assumptions: []string{"github.com/a-h/parse Input.Position/PositionAt derive line and column from the byte index through its newline table"},
 		Trusted:     []string{"go/types", "x/tools go/packages, go/cfg"},
 		Run:         runC06,
@@ -21,7 +23,9 @@ func init() {
 }
 
 func runC06(c *Ctx) {
-	c.load("./parser/v2", "./parser/v2/goexpression")
+	c.load("./parser/v2", "./parser/v2/goexpression", "./cmd/templ/lspcmd/proxy", "./cmd/templ/generatecmd")
+	parseInputIsTheFileText(c, "C06.R7", "parser/v2", "cmd/templ/lspcmd/proxy", "cmd/templ/generatecmd")
+	c.floor("C06.R7", 3)
 	committedPrefixParsers(c, "C06.R4")
 	expressionTextFromInput(c, "C06.R5")
 	lookaheadParsersFlat(c, "C06.R6")
@@ -564,6 +568,7 @@ func committedPrefixParsers(c *Ctx, rule string) {
 	info := pp.TypesInfo
 	// the keywords: constants K of strings.HasPrefix(<line>, K) disjunctions next to an un-read (Seek) in one function
 	keywords := map[string]bool{}
+	var reKeywordUndecided []string
 	for _, fd := range allFuncDecls(pp) {
 		hasSeek := false
 		var ks []string
@@ -578,6 +583,23 @@ func committedPrefixParsers(c *Ctx, rule string) {
 					if fn.Name() == "Seek" {
 						hasSeek = true
 					}
+					// the regexp form of the same test: <pkg-level regexp>.MatchString(<line>) — the prefixes it
+					// accepts are enumerated from the pattern (literal alternatives followed by a literal or a small class)
+					if fullName(fn) == "regexp.(Regexp).MatchString" {
+						if se, ok := call.Fun.(*ast.SelectorExpr); ok {
+							if id, ok := se.X.(*ast.Ident); ok {
+								if init, ok := pkgVarInit(pp, id.Name).(*ast.CallExpr); ok && len(init.Args) == 1 {
+									if pat, isC := constString(info, init.Args[0]); isC {
+										if pre, okp := regexRequiredPrefixes(pat); okp {
+											ks = append(ks, pre...)
+										} else {
+											reKeywordUndecided = append(reKeywordUndecided, fmt.Sprintf("%s: %s", c.pos(call.Pos()), pat))
+										}
+									}
+								}
+							}
+						}
+					}
 				}
 			}
 			return true
@@ -587,6 +609,10 @@ func committedPrefixParsers(c *Ctx, rule string) {
 				keywords[k] = true
 			}
 		}
+	}
+	if len(keywords) == 0 && len(reKeywordUndecided) > 0 {
+		c.undec(rule, "keyword-line-unread|regexp-prefixes", "", "the un-read condition is a regular expression whose required prefixes could not be enumerated: "+strings.Join(reKeywordUndecided, "; "))
+		return
 	}
 	if len(keywords) == 0 {
 		c.viol(rule, "anchor-lost:keyword-line-unread", "", "the top-level loop that un-reads lines starting with a template keyword was not found")
@@ -677,9 +703,14 @@ func committedPrefixParsers(c *Ctx, rule string) {
 			}
 		}
 	}
+	var ksorted []string
 	for k := range keywords {
+		ksorted = append(ksorted, k)
+	}
+	sort.Strings(ksorted)
+	for _, k := range ksorted {
 		if !seen[k] {
-			c.viol(rule, "anchor-lost:parser-for-keyword "+strings.TrimSpace(k), "", "no parser function tests the keyword "+k)
+			c.viol(rule, fmt.Sprintf("top-level-loop|un-reads-prefix %q|some-parser-commits", k), "", fmt.Sprintf("the top-level loop un-reads every line that starts with %q (and contains \"(\") and asks the template / css / script parsers again, but no parser tests that prefix: all of them decline without consuming anything, so Parse spins forever on such a line", k))
 		}
 	}
 	c.count("post_keyword_decline_branches", n)
@@ -989,4 +1020,94 @@ func lookaheadParsersFlat(c *Ctx, rule string) {
 	}
 	c.count("node_list_lookaheads", n)
 	c.floor(rule, 5)
+}
+
+// regexRequiredPrefixes enumerates the literal prefixes a match of the anchored pattern must start with: a leading ^,
+// then literals / alternations of literals / captures of those, extended by ONE following literal or character class of
+// at most 16 runes (the separator after a keyword). ok=false if the pattern is not of that shape.
+func regexRequiredPrefixes(pat string) ([]string, bool) {
+	re, err := syntax.Parse(pat, syntax.Perl)
+	if err != nil {
+		return nil, false
+	}
+	re = re.Simplify()
+	if re.Op != syntax.OpConcat || len(re.Sub) < 2 || re.Sub[0].Op != syntax.OpBeginText {
+		return nil, false
+	}
+	var lits func(r *syntax.Regexp) ([]string, bool)
+	lits = func(r *syntax.Regexp) ([]string, bool) {
+		switch r.Op {
+		case syntax.OpLiteral:
+			if r.Flags&syntax.FoldCase != 0 {
+				return nil, false
+			}
+			return []string{string(r.Rune)}, true
+		case syntax.OpCapture:
+			return lits(r.Sub[0])
+		case syntax.OpCharClass:
+			var out []string
+			for i := 0; i+1 < len(r.Rune); i += 2 {
+				for x := r.Rune[i]; x <= r.Rune[i+1]; x++ {
+					out = append(out, string(x))
+					if len(out) > 16 {
+						return nil, false
+					}
+				}
+			}
+			return out, true
+		case syntax.OpAlternate:
+			var out []string
+			for _, sub := range r.Sub {
+				l, ok := lits(sub)
+				if !ok {
+					return nil, false
+				}
+				out = append(out, l...)
+			}
+			return out, true
+		case syntax.OpConcat:
+			cur := []string{""}
+			for _, sub := range r.Sub {
+				l, ok := lits(sub)
+				if !ok {
+					return nil, false
+				}
+				var nxt []string
+				for _, a := range cur {
+					for _, b := range l {
+						nxt = append(nxt, a+b)
+					}
+				}
+				cur = nxt
+			}
+			return cur, true
+		}
+		return nil, false
+	}
+	cur := []string{""}
+	took := 0
+	for _, sub := range re.Sub[1:] {
+		l, ok := lits(sub)
+		if !ok {
+			break
+		}
+		var nxt []string
+		for _, a := range cur {
+			for _, b := range l {
+				nxt = append(nxt, a+b)
+			}
+		}
+		if len(nxt) > 64 {
+			return nil, false
+		}
+		cur = nxt
+		took++
+		if took == 2 {
+			break
+		}
+	}
+	if took == 0 {
+		return nil, false
+	}
+	return cur, true
 }
